@@ -21,8 +21,22 @@ Fixpoint conserved (pending : alist N) (taken : N) (l : list (cop * cobs * diges
       ((d_phase d =? 9) || d_sealed d || (total =? taken')) && conserved pending' taken' l'
   end.
 
+Definition is_close (f : frame) : bool := match f with FMethod 0 (MConnClose _ _) => true | _ => false end.
+
+(* the server's Close processed with the buffer not yet sealed: exactly CloseOk (12 bytes) is
+   added behind what was queued - nothing queued is dropped *)
+Fixpoint close_keeps_queue (prev_total : N) (prev_sealed : bool) (l : list (cop * cobs * digest * N)) : bool :=
+  match l with
+  | [] => true
+  | (o, b, d, t) :: l' =>
+      (if existsb is_close (frames_of_op o) && negb prev_sealed &&
+          match b with BOutcome OOk _ _ => true | _ => false end
+       then t =? prev_total + 12 else true) && close_keeps_queue t (d_sealed d) l'
+  end.
+
 Definition oracle_ok (c : case) : bool :=
   let '(_, _, ops, obs, _) := c in
   oracle_no_panic obs && all_ok obs &&
-  conserved [] 0 (map (fun '(x, t) => (x, t)) (combine (zip3 ops obs) (totals 0 obs))).
+  conserved [] 0 (map (fun '(x, t) => (x, t)) (combine (zip3 ops obs) (totals 0 obs))) &&
+  close_keeps_queue 0 false (map (fun '(x, t) => (x, t)) (combine (zip3 ops obs) (totals 0 obs))).
 Definition bad_oracle (cs : list case) : list N := bad_idx oracle_ok 0 cs.
